@@ -268,6 +268,12 @@ def bounded_caps(reg, tier, seed):
             # reference model: per region, name -> list of (type, url) newest first
             ref = {i: {"Seed": [("NORMAL", r.caps["Seed"][1])]} for i, r in enumerate(h.session.regions)}
             ops = []
+
+            def check_by_name(rk, ops_, h=h, ref=ref):
+                for name_, lst in ref[rk].items():
+                    got = h.session.regions[rk].cap_urls.get(name_)
+                    if got != lst[0][1]:
+                        fail("caps/by-name", f"lookup of {name_} by name gave {got}, the most recently granted live URL is {lst[0][1]}", {"ops": [str(o) for o in ops_[-8:]]})
             for step in range(rng.randrange(4, 16)):
                 ri = rng.randrange(2)
                 region = h.session.regions[ri]
@@ -282,12 +288,14 @@ def bounded_caps(reg, tier, seed):
                         older = [u_ for t_, u_ in ref[ri][name][1:]] or [ref[ri][name][0][1]]
                         url = rng.choice(older)          # the simulator grants an earlier URL again: it is the newest grant now
                     else:
-                        url = rng.choice([f"https://sim{ri}.example/cap/{name}-{run}-{step}", fixed[name]])
+                        # granted URLs may end in a delimiter themselves (the OpenSim form .../CAPS/<uuid>/)
+                        url = rng.choice([f"https://sim{ri}.example/cap/{name}-{run}-{step}", fixed[name], fixed[name] + "/",
+                                          f"https://sim{ri}.example/CAPS/{name}-{run}-{step}/", f"https://sim{ri}.example/q/{name}-{run}-{step}?id="])
                     region.update_caps({name: url})
                     ref[ri].setdefault(name, []).insert(0, ("NORMAL", url))
                     ops.append((op, ri, name, url))
                 elif op == "temp":
-                    url = f"https://sim{ri}.example/upload/{run}-{step}"
+                    url = f"https://sim{ri}.example/upload/{run}-{step}" + rng.choice(["", "", "/"])
                     region.register_cap("Uploader", url, CapType.TEMPORARY)
                     ref[ri].setdefault("Uploader", []).insert(0, ("TEMPORARY", url))
                     ops.append((op, ri, url))
@@ -301,16 +309,14 @@ def bounded_caps(reg, tier, seed):
                     if not prev:
                         ref[ri].setdefault(name, []).insert(0, ("PROXY_ONLY", url))
                 elif op == "lookup":
-                    for name, lst in ref[ri].items():
-                        got = region.cap_urls.get(name)
-                        if got != lst[0][1]:
-                            fail("caps/by-name", f"lookup of {name} by name gave {got}, the most recently granted URL is {lst[0][1]}", {"ops": [str(o) for o in ops[-6:]]})
+                    check_by_name(ri, ops)
                 elif op in ("resolve", "resolve_temp"):
                     cands = [(n, t, u) for n, lst in ref[ri].items() for t, u in lst if (t == "TEMPORARY") == (op == "resolve_temp") and n != "Seed"]
                     if not cands:
                         continue
                     n, t, u = rng.choice(cands)
-                    req = u + rng.choice(["", "/x", "?a=1"])
+                    # what follows the granted URL is arbitrary request text
+                    req = u + rng.choice(["", "/x", "?a=1", "children?depth=1", "x", ".au/", "-2", "/sub/", "#f", ":8002/y", "0"])
                     ops.append((op, ri, req))
                     try:
                         cd = h.session_manager.resolve_cap(req)
@@ -335,6 +341,36 @@ def bounded_caps(reg, tier, seed):
                             again = None
                         if again and again.cap_name == best[0] and again.base_url == best[2]:
                             fail("caps/temporary", f"one-shot cap {best[2]} resolved a second time", {"ops": [str(o) for o in ops[-6:]]})
+                if op in ("resolve", "resolve_temp"):
+                    for rj in ref:
+                        check_by_name(rj, ops)
+            # several one-shot caps in flight under one name: consuming any of them leaves the others, newest first
+            ri = rng.randrange(2)
+            region = h.session.regions[ri]
+            tname = "NewFileAgentInventoryUploader"
+            for k in range(rng.randrange(3, 6)):
+                url = f"https://sim{ri}.example/inflight/{run}-{k}" + rng.choice(["", "/"])
+                region.register_cap(tname, url, CapType.TEMPORARY)
+                ref[ri].setdefault(tname, []).insert(0, ("TEMPORARY", url))
+                ops.append(("temp", ri, url))
+            while ref[ri].get(tname):
+                evals += 1
+                t, u = rng.choice(ref[ri][tname])
+                req = u + rng.choice(["", "?x=1", "done"])
+                ops.append(("resolve_temp", ri, req))
+                try:
+                    cd = h.session_manager.resolve_cap(req)
+                except Exception as e:  # noqa
+                    fail("caps/resolve", f"resolving {req} raised {type(e).__name__}: {e}", {"ops": [str(o) for o in ops[-8:]], "request": req})
+                    break
+                if not cd or cd.cap_name != tname or cd.base_url != u:
+                    fail("caps/resolve", f"{req} resolved to {cd.cap_name if cd else None} ({cd.base_url if cd else None}), it extends {tname} ({u})",
+                         {"ops": [str(o) for o in ops[-8:]], "request": req})
+                    break
+                ref[ri][tname].remove((t, u))
+                if not ref[ri][tname]:
+                    del ref[ri][tname]
+                check_by_name(ri, ops)
             seen.add(tuple(str(o) for o in ops))
             if len(samples) < 2:
                 samples.append([str(o) for o in ops[:6]])
